@@ -152,6 +152,34 @@ def perturb(rng, m, rec, info):
     return (reps, start, dur, ne), "anchor"
 
 
+def same_span_pair(rng, m):
+    """Two bounded recurrences with the same repetitions and anchor whose intervals differ - one in months /
+    years, one exact - but cover the same total span, so that the derived far end coincides: they differ in
+    the interval and must compare unequal."""
+    anchor = R.gen_anchor(rng, m)
+    anchor = T.tp_from_inst(m, T.inst(m, anchor), anchor[0], anchor[7], anchor[8])
+    n = rng.choice([2, 2, 3, 4, 5])
+    y, mo = rng.choice([(0, 1), (0, 1), (1, 0), (0, 2), (0, 12), (2, 0), (0, 3)])
+    d = ("U", y, mo, 0, 0, 0, 0)
+    fmt = rng.choice([3, 4])
+    mult = ("U", y * (n - 1), mo * (n - 1), 0, 0, 0, 0)
+    far = R.step(m, anchor, mult, 1 if fmt == 3 else -1)
+    span = abs(T.inst(m, far) - T.inst(m, anchor))
+    if span % (n - 1) or span == 0:
+        return None
+    per = span // (n - 1)
+    exact = ("U", 0, 0, per // 86400, 0, 0, per % 86400)
+    if fmt == 3:
+        x, yrec = (n, anchor, d, None), (n, anchor, exact, None)
+    else:
+        x, yrec = (n, None, d, anchor), (n, None, exact, anchor)
+    info = dict(fmt=fmt, anchor=anchor, interval=d, reps=n)
+    if rng.random() < 0.5:
+        x, yrec = yrec, x
+        info["interval"] = exact
+    return (m, x, yrec, "differ:interval", tuple(sorted(info.items())))
+
+
 def respell(rng, m, rec, info):
     """The same anchors and interval spelled differently (other zone/representation/units)."""
     reps, start, dur, end = rec
@@ -178,6 +206,11 @@ class Eq(Op):
             m = gens.mode(rng)
             rec, info = R.gen_rec(rng, m, max_reps=15)
             r = rng.random()
+            if rng.random() < 0.12:
+                case = same_span_pair(rng, m)
+                if case is not None:
+                    yield case
+                    continue
             if r < 0.45:
                 other, which = perturb(rng, m, rec, info)
                 yield (m, rec, other, "differ:" + which, tuple(sorted(info.items())))
@@ -282,12 +315,29 @@ class Text(Op):
     def line(self, a):
         return "rtext %s %s" % (a[0], R.rec_line(a[1]))
 
+    sibling_rate = 0.5
+    _parser = None
+
+    def sibling(self, a, rng):
+        """The same text again under another calendar mode (through the same long-lived parser)."""
+        m, rec, info = a
+        out = []
+        for m2 in T.OTHER_MODES[m][:2]:
+            if not all(t is None or T.valid(m2, t) for t in (rec[1], rec[3])):
+                continue
+            if rec[2] is None and T.inst(m2, rec[1]) > T.inst(m2, rec[3]):
+                continue      # start/second-point notation: the second point must not precede the start
+            out.append((m2, rec, info))
+        return out
+
     def impl(self, a):
         from metomi.isodatetime.parsers import TimeRecurrenceParser
         set_mode(a[0])
         rec = R.mk_rec(a[1])
         text = str(rec)
-        back = TimeRecurrenceParser().parse(text)
+        if Text._parser is None:
+            Text._parser = TimeRecurrenceParser()     # one parser for the whole run, as an application has
+        back = Text._parser.parse(text)
         problems = []
         if not (back == rec):
             problems.append("parse(str(r)) != r")
